@@ -64,7 +64,7 @@ func loadWorld(repo string, specDir string) (*World, error) {
 	if len(errs) > 0 {
 		return nil, fmt.Errorf("repository does not type-check: %s", strings.Join(errs, "; "))
 	}
-	prog, spkgs := ssautil.AllPackages(pkgs, ssa.BuilderMode(0))
+	prog, spkgs := ssautil.AllPackages(pkgs, ssa.GlobalDebug)
 	prog.Build()
 	w := &World{RepoDir: repo, Prog: prog, Pkgs: pkgs, SSAPkgs: map[string]*ssa.Package{}, FuncByKey: map[string]*ssa.Function{},
 		TypeByKey: map[string]types.Type{}, ContractOf: map[*ssa.Function]*Contract{}, IfaceSpec: map[string]*Contract{},
